@@ -1088,6 +1088,27 @@ impl<'a> Run<'a> {
                     self.count(&format!("no-error:{}", fault.label));
                     return;
                 }
+                // every second plant whose fault lives in another template than the entry: a later
+                // batch that moves the faulty code to other lines and is REJECTED at reference
+                // validation must leave no trace - the error still points into the registered source
+                if p.fault_tpl != p.entry && self.alt_counter % 2 == 1 {
+                    if let Some((n, src)) = p.templates.iter().find(|(n, _)| *n == p.fault_tpl) {
+                        let moved = format!("{{# moved #}}\n\n\n   {src}{{{{ 1 | no_such_filter_xyz }}}}");
+                        let r = std::panic::catch_unwind(std::panic::AssertUnwindSafe(|| tera.add_raw_templates(vec![(n.as_str(), moved.as_str())])));
+                        self.meta.oracle_checks += 1;
+                        match r {
+                            Ok(Err(_)) => {}
+                            Ok(Ok(())) => {
+                                self.fail("a template that uses an unknown filter was accepted", None, p, None);
+                                return;
+                            }
+                            Err(_) => {
+                                self.fail("panic during a rejected registration", None, p, None);
+                                return;
+                            }
+                        }
+                    }
+                }
                 // oracle on all of them; every third one also goes to Coq
                 let keep = self.to_coq;
                 self.alt_counter += 1;
